@@ -279,6 +279,27 @@ func (m C11Norm) Mass(l, r int) float64 {
 	return 1 - 0.5*(math.Erfc(-ta)+math.Erfc(tb))
 }
 
+// Tail is the mass N(mu, sigma^2) leaves outside [l-1/2, r-1/2], i.e.
+// 1-Mass(l,r) without the cancellation: when the band straddles mu it is the
+// sum of the two outer erfc values (relative accuracy a few ulp however small
+// it is); otherwise the band holds at most half of the mass and 1-Mass is
+// exact to an ulp of a number >= 1/2.
+func (m C11Norm) Tail(l, r int) float64 {
+	a, b := float64(l)-0.5, float64(r)-0.5
+	if b <= a {
+		return 1
+	}
+	if m.Sigma == 0 {
+		return 1 - m.Mass(l, r)
+	}
+	s := m.Sigma * math.Sqrt2
+	ta, tb := (a-m.Mu)/s, (b-m.Mu)/s
+	if ta < 0 && tb > 0 {
+		return 0.5 * (math.Erfc(-ta) + math.Erfc(tb))
+	}
+	return 1 - m.Mass(l, r)
+}
+
 // CForEnd is the content of the central interval whose lower end is x<mu.
 func (m C11Norm) CForEnd(x float64) float64 {
 	if m.Sigma == 0 || !(x < m.Mu) {
@@ -368,6 +389,19 @@ func C11SelfTest() error {
 		ref := F64(Sub(NormCDF(float64(t.r)-0.5, m.Mu, m.Sigma), NormCDF(float64(t.l)-0.5, m.Mu, m.Sigma)))
 		if math.Abs(got-ref) > 1e-14 {
 			return fmt.Errorf("C11Norm(%d,%v).Mass(%d,%d)=%.17g, 384-bit %.17g", t.n, t.q, t.l, t.r, got, ref)
+		}
+	}
+	// the outside mass of wide bands against the 384-bit Phi, relatively
+	for _, t := range []struct {
+		n    int
+		q    float64
+		l, r int
+	}{{2000, 0.25, 382, 619}, {1000, 0.5, 402, 600}, {100, 0.5, 18, 83}, {500, 0.9, 402, 498}, {50, 0.5, 3, 48}, {31, 0.5, 0, 32}, {100, 0.3, 25, 36}, {50, 0.5, 30, 60}} {
+		m := NewC11Norm(t.n, t.q)
+		got := m.Tail(t.l, t.r)
+		ref := F64(Sub(NF(1), Sub(NormCDF(float64(t.r)-0.5, m.Mu, m.Sigma), NormCDF(float64(t.l)-0.5, m.Mu, m.Sigma))))
+		if !(ref > 0) || math.Abs(got-ref) > 1e-11*ref {
+			return fmt.Errorf("C11Norm(%d,%v).Tail(%d,%d)=%.17g, 384-bit %.17g", t.n, t.q, t.l, t.r, got, ref)
 		}
 	}
 	m := NewC11Norm(31, 0.5)
